@@ -1201,14 +1201,14 @@ def r1111(P, rep):
 # The scanners have no table of lengths: every loop that collects the characters of one token ends at the first character that
 # does not belong to it.  C11 5.2.4.1 requires at least 4095 characters in a string literal / logical line and 63 significant
 # characters in an identifier; the spellings below are longer than all of them.
-LONG_N = (70, 300, 1100, 4200)
+LONG_N = (70, 300, 4200)
 _LONG_CFG = {'forever_limit': 100000}
 
 
 def r1113(P, u, rep):
     fn = 'tokenize'
     _need(u, fn, 'convert_pp_number')
-    rep.rule('R11.13', 'no scanner has a length limit: identifiers, pp-numbers, string literals of every prefix, comments and lines of 70 to 4200 characters '
+    rep.rule('R11.13', 'no scanner has a length limit: identifiers, pp-numbers, string literals of every prefix, comments (70 to 4200 characters) and spliced lines (to 1100) '
              '(beyond the minimum translation limits of C11 5.2.4.1) are read whole, with the value and type of the same spelling at any length', floor=12)
     where = _where(u, fn)
 
@@ -1257,9 +1257,9 @@ def r1113(P, u, rep):
         return ''
     ob('integer-constant', [('an octal constant with %d digits' % n, lambda n=n: number('0' * (n - 2) + '17', INT, 15)) for n in LONG_N] +
        [('a hexadecimal constant with %d digits' % n, lambda n=n: number('0x' + '0' * (n - 2) + '1F', INT, 31)) for n in LONG_N] +
-       [('a binary constant with %d digits' % n, lambda n=n: number('0b' + '0' * (n - 2) + '11', INT, 3)) for n in LONG_N[:3]])
+       [('a binary constant with %d digits' % n, lambda n=n: number('0b' + '0' * (n - 2) + '11', INT, 3)) for n in LONG_N[:2]])
     ob('floating-constant', [('a floating constant with %d digits' % n, lambda n=n: number('1.' + '0' * (n - 5) + '5e1', DOUBLE, None)) for n in LONG_N] +
-       [('a hexadecimal floating constant with %d digits' % n, lambda n=n: number('0x1.' + '0' * (n - 7) + '8p1f', FLOAT, None)) for n in LONG_N[:3]])
+       [('a hexadecimal floating constant with %d digits' % n, lambda n=n: number('0x1.' + '0' * (n - 7) + '8p1f', FLOAT, None)) for n in LONG_N[:2]])
 
     def string(prefix, base, n, enc):
         body = 'a' * (n - 3) + '\u00e9\U0001F363z'
